@@ -196,8 +196,9 @@ example : exB3.Valid exB3.save ∧ (exB.require 4).2.Valid exB.save ∧ ¬ exB3.
     For every atom — `any`, `one`/`not_one`, `range`/`not_range`, `ranges`, `string`, `istring`, `bytes`,
     `eof`, `bof`, `bol`, `eol` and `eolf` under each of the five end-of-line policies, `success`, `failure`,
     `everything`, `require`, contrib's `rep_one_min_max` (its counting loop over `in.size( Max + 1 )` bytes, which on a
-    buffer may be MORE than `Max + 1`), i.e. every atom of the matcher model except the contrib ones `utf8::range` and
-    `integer::maximum_rule` (`Atom.overBuffer`) — its `match( in )` over a buffer input in ANY invariant state (any
+    buffer may be MORE than `Max + 1`), `utf8::range` / `utf8::not_range` (through `peek_utf8`: `empty()`, then the one
+    `in.size( 2 | 3 | 4 )` call that the first byte selects, either of which may throw), i.e. every atom of the matcher model
+    except contrib's `integer::maximum_rule` (`Atom.overBuffer`) — its `match( in )` over a buffer input in ANY invariant state (any
     maximum, Chunk, window position, reader schedule) either ends in `std::overflow_error` (the
     invariant still holds: no corruption), or returns exactly the result that the same atom returns
     over the memory input holding the whole stream at the same logical position, leaves the input at
@@ -211,13 +212,21 @@ theorem C07_run_sim_partial (a : Atom) (b : Buffer) (h : Inv b) (ha : a.overBuff
   atom_sim a b h ha
 
 example : (Atom.string [99, 100, 101]).overBuffer = true ∧ Atom.everything.overBuffer = true ∧ Atom.eol.overBuffer = true ∧
-    (Atom.repOne 1 3 100).overBuffer = true := by decide
+    (Atom.repOne 1 3 100).overBuffer = true ∧ (Atom.utf8Range true 128 2047).overBuffer = true := by decide
 /-- `rep_one_min_max` on "aaaba" with 5 bytes already buffered: `in.size( 3 )` answers 5, not 3 — `< 1, 2, 'a' >` counts 3 > Max and
     fails where the memory input (which looks at 3 bytes) counts 3 > Max and fails too; `< 1, 3, 'a' >` matches and leaves both at 3. -/
 def exA : Buffer := ((Buffer.init #[97, 97, 97, 98, 97] [] 8 8).require 5).2
 example : exA.occupied = 5 ∧ (atomStepBuf (.repOne 1 2 97) exA).2.1 = false ∧ (atomStep exA.memCtx (.repOne 1 2 97) exA.view).1 = false ∧
     (atomStepBuf (.repOne 1 3 97) exA).2.1 = true ∧ (atomStepBuf (.repOne 1 3 97) exA).2.2.cur.byte = 3 ∧
     (atomStep exA.memCtx (.repOne 1 3 97) exA.view).2.cur.pos = 3 := by decide
+/-- `utf8::range< 0x80, 0x7FF >` on "ä€" (c3 a4 e2 82 ac) fed byte by byte into a buffer of 2 + 1 bytes: matches the two bytes of "ä" (the
+    reader is called twice), then fails on the three-byte "€" as on memory; `utf8::range< 0, 0x10FFFF >` there needs 3 bytes behind data
+    offset 2 of a 3-byte allocation: `std::overflow_error`. -/
+def exU : Buffer := Buffer.init #[0xc3, 0xa4, 0xe2, 0x82, 0xac] [1, 1, 1, 1, 1] 2 1
+example : (atomStepBuf (.utf8Range true 0x80 0x7FF) exU).1 = .done ∧ (atomStepBuf (.utf8Range true 0x80 0x7FF) exU).2.1 = true ∧
+    (atomStepBuf (.utf8Range true 0x80 0x7FF) exU).2.2.cur.byte = 2 ∧ (atomStepBuf (.utf8Range true 0x80 0x7FF) exU).2.2.fed = 2 ∧
+    (atomStep exU.memCtx (.utf8Range true 0x80 0x7FF) exU.view).2.cur.pos = 2 ∧
+    (atomStepBuf (.utf8Range true 0 0x10FFFF) (atomStepBuf (.utf8Range true 0x80 0x7FF) exU).2.2).1 = .overflow := by decide
 /-- `string< 'c', 'd', 'e' >` at logical position 3 of `exB` after the discard: matches, the reader
     (1 byte per call) is called as often as needed, the position advances to 6 on both sides. -/
 example : (atomStepBuf (.string [99, 100, 101]) exB3.discard).1 = .done ∧
